@@ -296,7 +296,8 @@ def explore(case, opts, rng, stats):
             base = dict(paths[-1].model) if paths else {}
             base.update(pt)
             model = _perturb(base, pt, neg_paths, rng)
-        pr, env = run_symbolic(case, model, rng, profile=(first and opts.profile))
+        pr, env = run_symbolic(case, model, rng, profile=(first and opts.profile),
+                               allow_ties=getattr(case, "allow_ties", False))
         first = False
         stats["runs"] += 1
         if pr.error and pr.error[0] == "unsupported":
@@ -531,7 +532,7 @@ def decide_case(case, opts):
     if not complete:
         res["inconclusive"].append("exploration incomplete: " + reason)
     funcs = set()
-    uses_rng = any(vi.kind == "rng" for vi in CTX.vars.values())
+    uses_rng = any(vi.kind == "rng" for vi in CTX.vars.values()) or getattr(case, "needs_rng_stub", False)
     nvalid = 0
     path_goals = {}
     for pi, pr in enumerate(paths):
